@@ -21,48 +21,51 @@ CONSTANTS Outs,        \* set of declared outputs, e.g. {1, 2}
           Emit
 VARIABLES had,         \* scenario: a previous successful build exists
           changed,     \* scenario: the outputs whose content differs between old and new
+          reverted,    \* scenario: after the crash the edit is undone, so the NEXT build sees the old tree again
           content, attr, meta, pc, crashed
-vars == <<had, changed, content, attr, meta, pc, crashed>>
-Init == /\ had \in BOOLEAN /\ changed \in SUBSET Outs
-        /\ (had \/ changed = Outs)
+vars == <<had, changed, reverted, content, attr, meta, pc, crashed>>
+Init == /\ had \in BOOLEAN /\ changed \in SUBSET Outs /\ reverted \in BOOLEAN
+        /\ (had \/ changed = Outs) /\ (reverted => had)
         /\ content = [o \in Outs |-> IF had THEN "old" ELSE "none"]
         /\ attr = [o \in Outs |-> IF had THEN "old" ELSE "none"]
         /\ meta = (IF had THEN "old" ELSE "none")
         /\ pc = <<"ran">> /\ crashed = FALSE
 \* the remaining steps as a program counter: a tuple <<phase, output index>>
 Step(p) == pc = p /\ ~crashed
-MetaRemove == Step(<<"ran">>) /\ meta' = "none" /\ pc' = <<"metaRemoved">> /\ UNCHANGED <<had, changed, content, attr, crashed>>
-MetaCreate == Step(<<"metaRemoved">>) /\ meta' = "partial" /\ pc' = <<"metaCreated">> /\ UNCHANGED <<had, changed, content, attr, crashed>>
-MetaWrite == Step(<<"metaCreated">>) /\ meta' = "new" /\ pc' = <<"move", 1>> /\ UNCHANGED <<had, changed, content, attr, crashed>>
+MetaRemove == Step(<<"ran">>) /\ meta' = "none" /\ pc' = <<"metaRemoved">> /\ UNCHANGED <<had, changed, reverted, content, attr, crashed>>
+MetaCreate == Step(<<"metaRemoved">>) /\ meta' = "partial" /\ pc' = <<"metaCreated">> /\ UNCHANGED <<had, changed, reverted, content, attr, crashed>>
+MetaWrite == Step(<<"metaCreated">>) /\ meta' = "new" /\ pc' = <<"move", 1>> /\ UNCHANGED <<had, changed, reverted, content, attr, crashed>>
 N == Cardinality(Outs)
 \* moveOutput(o): same hash -> keep; else remove old, then rename new in
 MoveKeep(o) == /\ Step(<<"move", o>>) /\ content[o] # "none" /\ o \notin changed
                /\ pc' = (IF o = N THEN <<"record", 1>> ELSE <<"move", o + 1>>)
-               /\ UNCHANGED <<had, changed, content, attr, meta, crashed>>
+               /\ UNCHANGED <<had, changed, reverted, content, attr, meta, crashed>>
 MoveRemove(o) == /\ Step(<<"move", o>>) /\ content[o] # "none" /\ o \in changed
                  /\ content' = [content EXCEPT ![o] = "none"] /\ attr' = [attr EXCEPT ![o] = "none"]
-                 /\ pc' = <<"moveIn", o>> /\ UNCHANGED <<had, changed, meta, crashed>>
+                 /\ pc' = <<"moveIn", o>> /\ UNCHANGED <<had, changed, reverted, meta, crashed>>
 MoveIn(o) == /\ (Step(<<"moveIn", o>>) \/ (Step(<<"move", o>>) /\ content[o] = "none"))
              /\ content' = [content EXCEPT ![o] = "new"] /\ attr' = [attr EXCEPT ![o] = "none"]
              /\ pc' = (IF o = N THEN <<"record", 1>> ELSE <<"move", o + 1>>)
-             /\ UNCHANGED <<had, changed, meta, crashed>>
+             /\ UNCHANGED <<had, changed, reverted, meta, crashed>>
 Record(o) == /\ Step(<<"record", o>>) /\ attr' = [attr EXCEPT ![o] = "new"]
              /\ pc' = (IF o = N THEN <<"done">> ELSE <<"record", o + 1>>)
-             /\ UNCHANGED <<had, changed, content, meta, crashed>>
-Crash == /\ ~crashed /\ pc # <<"done">> /\ crashed' = TRUE /\ UNCHANGED <<had, changed, content, attr, meta, pc>>
+             /\ UNCHANGED <<had, changed, reverted, content, meta, crashed>>
+Crash == /\ ~crashed /\ pc # <<"done">> /\ crashed' = TRUE /\ UNCHANGED <<had, changed, reverted, content, attr, meta, pc>>
 Next == MetaRemove \/ MetaCreate \/ MetaWrite \/ Crash \/ \E o \in Outs : MoveKeep(o) \/ MoveRemove(o) \/ MoveIn(o) \/ Record(o)
 Spec == Init /\ [][Next]_vars
 
+\* the tree the next invocation sees: the edited one, or the old one again if the edit was undone after the crash
+Want == IF reverted THEN "old" ELSE "new"
 \* the next invocation's decision (needsBuilding), on what is on disk
 Consistent == \A o1, o2 \in Outs : attr[o1] = attr[o2]
 NeedsBuilding == \/ meta = "none"
                  \/ \E o \in Outs : attr[o] = "none" \/ content[o] = "none"
                  \/ ~Consistent
-                 \/ \E o \in Outs : attr[o] # "new"        \* recorded hashes differ from the current ones
-\* effective content of an output: an unchanged output's old content IS the new content
-Current(o) == content[o] = "new" \/ (content[o] = "old" /\ o \notin changed)
+                 \/ \E o \in Outs : attr[o] # Want         \* recorded hashes differ from the current ones
+\* effective content of an output: an unchanged output's old content IS the new content (and vice versa)
+Current(o) == content[o] = Want \/ (content[o] \in {"old", "new"} /\ o \notin changed)
 \* C32
 CrashSafe == (crashed \/ pc = <<"done">>) => (NeedsBuilding \/ \A o \in Outs : Current(o))
 EmitCase == (Emit /\ crashed) =>
-  PrintT(<<"CASE", ToJson([had |-> had, changed |-> changed, at |-> pc, needsBuilding |-> NeedsBuilding])>>)
+  PrintT(<<"CASE", ToJson([had |-> had, changed |-> changed, reverted |-> reverted, at |-> pc, needsBuilding |-> NeedsBuilding])>>)
 =============================================================================
